@@ -188,9 +188,11 @@ def prepare_affine(
     pads: list[tuple[int, ...]] = []
     new_center: list[float] = []
     need_pad = False
+    # nearest-neighbor sampling also needs one voxel of margin around the box
+    margin = max(order, 1)
     for c, s, s0 in zip(center, output_shape, img.shape):
-        x0 = int(c - s / 2 - order)
-        x1 = int(x0 + s + 2 * order + 1)
+        x0 = int(c - s / 2 - margin)
+        x1 = int(x0 + s + 2 * margin + 1)
         _sl, _pad, _need_pad = make_slice_and_pad(x0, x1, s0)
         slices.append(_sl)
         pads.append(_pad)
